@@ -2442,7 +2442,7 @@ class sptensor:
             self.vals[tf[idxa]] = newvals[idxa]
         # Process Group B: Removing Values
         if np.sum(idxb) > 0:
-            removesubs = loc[idxb]
+            removesubs = tf[idxb]
             keepsubs = np.setdiff1d(range(0, self.nnz), removesubs)
             self.subs = self.subs[keepsubs, :]
             self.vals = self.vals[keepsubs]
